@@ -915,7 +915,8 @@ SCENARIOS['C03'] = scen_C03
 
 # ------------------------------------------------------------------ C05 / C06 / C17 (structure, reclamation, statistics)
 def structure_history(ctx, g, kt, i, cycles=False, stats_ops=True):
-    ks = g.key_universe(kt, g.rng.choice([3, 8, 20, 50]))
+    # every third string/bytes case draws long keys too: large KEY slots are freed and re-used (first fit) for smaller large keys
+    ks = g.key_universe(kt, g.rng.choice([3, 8, 20, 50]), long_keys=(i % 3 == 1))
     lines = ['db d0 db', 'map m0 d0 %s m %s' % (kt, g.params(n=g.rng.choice([1, 2, 8, 16, 64, 256])))]
     for _ in range(ctx.scale(6, 20)):
         lines += g.hist(kt, g.rng.randrange(1, 50), keys=ks, big=0.04, reads=0.1)
